@@ -17,7 +17,7 @@ import (
 
 func init() {
 	register(&Property{ID: "C16", Run: runC16, Meta: report.Meta{ID: "C16",
-		Explanation: "DECIDED: agreement between the SHAPE of the example grammar and the interpreters that index into it — a necessary condition of 'evaluates to the same value as encoding/json … never a panic' that no test covers (examples/json/json has only benchmarks). R16a value-shape inference over the constructor expressions of json.NewParser (abstract interpretation of the typed AST: terminals yield their literal type, SeqOf/SepBy/Choice/trim wrappers/recursive references compose, Select(k) needs k < arity, Array() yields a list of the value elements, Object() needs every element to be a sequence of at least three children whose first evaluates to a string, a sequence without interpreter has no value): the root evaluates, on every alternative, to a JSON value type (string, float64, int64, bool, nil, list, string-keyed map) and never to 'panics' or 'no value'. R16b SepBy alternates value and separator parsers by index parity and accepts exactly the empty chain (when allowed) and odd-length chains, checked by truth-table equivalence of the length predicate over its atomic comparisons; Sentence selects child 0 of (p, End). NOT DECIDED: value agreement with encoding/json (a differential property over documents), whitespace-mode choices, numeric edge cases, the regular expressions of the literals.",
+		Explanation: "DECIDED: agreement between the SHAPE of the example grammar and the interpreters that index into it — a necessary condition of 'evaluates to the same value as encoding/json … never a panic' that no test covers (examples/json/json has only benchmarks). R16a value-shape inference over the constructor expressions of json.NewParser (abstract interpretation of the typed AST: terminals yield their literal type, SeqOf/SepBy/Choice/trim wrappers/recursive references compose, Select(k) needs k < arity, Array() yields a list of the value elements, Object() needs every element to be a sequence of at least three children whose first evaluates to a string, a sequence without interpreter has no value): the root evaluates, on every alternative, to a JSON value type (string, float64, int64, bool, nil, list, string-keyed map) and never to 'panics' or 'no value'. R16b SepBy alternates value and separator parsers by index parity and accepts exactly the empty chain (when allowed) and odd-length chains, checked by truth-table equivalence of the length predicate over its atomic comparisons; Sentence selects child 0 of (p, End). R16c every number of the supported JSON subset is a word of the pattern that delimits the literal parser the grammar uses for it: the language of -?(0|[1-9][0-9]*)\\.[0-9]+([eE][+-]?[0-9]+)? is included in that of terminal.Float's pattern constant, that of -?(0|[1-9][0-9]*) in terminal.Integer's (Thompson automata from regexp/syntax, product subset construction over a partition of the rune alphabet, shortest counterexample reported; computed on the pattern constants, nothing of the library is run). R16d the Array/Object interpreters store one entry per visited element: inside the loop only index tests and error returns decide whether the store runs, and the value stored is that iteration's EvaluateNode result (so a later duplicate key overwrites an earlier one, as in encoding/json). NOT DECIDED: value agreement with encoding/json (a differential property over documents), whitespace-mode choices, numeric edge cases, that the patterns match NO MORE than intended and that leftmost-first matching consumes the whole number (R16c is the inclusion only).",
 		Assumptions: commonAssumptions, TrustedBase: append([]string{"go/ast + go/types of the example package"}, commonTrusted...)}})
 }
 
